@@ -2,11 +2,10 @@
 
 from __future__ import annotations
 
+import itertools
 import json
 import os
-import queue
 import subprocess
-import sys
 import threading
 
 VERIF_ROOT = os.path.dirname(os.path.dirname(os.path.abspath(__file__)))
@@ -18,11 +17,19 @@ class HarnessError(Exception):
 
 
 class Zygote:
-    def __init__(self, hashseed: int, repo_root: str):
+    """One pristine interpreter; many jobs may be in flight (each in its own forked child)."""
+
+    def __init__(self, hashseed: int, repo_root: str, max_inflight: int = 8):
         env = dict(os.environ)
         env["PYTHONHASHSEED"] = str(hashseed)
         env.pop("PYTHONPATH", None)
         env["PYTHONDONTWRITEBYTECODE"] = "1"
+        # mmap/munmap churn scales badly across processes in this VM: keep the heap on brk
+        env["PYTHONMALLOC"] = "malloc"
+        env["MALLOC_TRIM_THRESHOLD_"] = "2000000000"
+        env["MALLOC_TOP_PAD_"] = "67108864"
+        env["MALLOC_MMAP_THRESHOLD_"] = "1000000000"
+        env["MALLOC_ARENA_MAX"] = "1"
         self.hashseed = hashseed
         self.proc = subprocess.Popen(
             [PYTHON, "-X", "faulthandler", os.path.join(VERIF_ROOT, "sim", "zygote.py"), repo_root, VERIF_ROOT],
@@ -30,8 +37,6 @@ class Zygote:
             stdout=subprocess.PIPE,
             env=env,
             cwd=VERIF_ROOT,
-            text=True,
-            bufsize=1,
         )
         hello = self.proc.stdout.readline()
         if not hello:
@@ -39,18 +44,55 @@ class Zygote:
         self.hello = json.loads(hello)
         if not self.hello.get("hello"):
             raise HarnessError(f"zygote refused: {self.hello}")
-        self.lock = threading.Lock()
+        self.wlock = threading.Lock()
+        self.ids = itertools.count(1)
+        self.pending: dict = {}
+        self.plock = threading.Lock()
+        self.sem = threading.Semaphore(max_inflight)
+        self.dead = False
         self.jobs = 0
+        self.reader = threading.Thread(target=self._read_loop, daemon=True)
+        self.reader.start()
+
+    def _read_loop(self):
+        try:
+            for line in self.proc.stdout:
+                try:
+                    resp = json.loads(line)
+                except Exception:  # noqa: BLE001
+                    continue
+                with self.plock:
+                    ent = self.pending.pop(resp.get("id"), None)
+                if ent is not None:
+                    ent[1] = resp
+                    ent[0].set()
+        finally:
+            self.dead = True
+            with self.plock:
+                ents = list(self.pending.values())
+                self.pending.clear()
+            for ent in ents:
+                ent[1] = {"ok": False, "error": "zygote died"}
+                ent[0].set()
 
     def call(self, job: dict) -> dict:
-        with self.lock:
-            self.proc.stdin.write(json.dumps(job) + "\n")
-            self.proc.stdin.flush()
-            line = self.proc.stdout.readline()
-            self.jobs += 1
-        if not line:
+        if self.dead:
             raise HarnessError("zygote died")
-        resp = json.loads(line)
+        with self.sem:
+            jid = next(self.ids)
+            job = dict(job)
+            job["id"] = jid
+            ent = [threading.Event(), None]
+            with self.plock:
+                self.pending[jid] = ent
+            data = (json.dumps(job) + "\n").encode()
+            with self.wlock:
+                self.proc.stdin.write(data)
+                self.proc.stdin.flush()
+                self.jobs += 1
+            if not ent[0].wait(timeout=job.get("timeout", 60) + 30):
+                raise HarnessError("no response from zygote")
+        resp = ent[1]
         if not resp.get("ok"):
             raise HarnessError(f"job failed: {resp.get('error')}")
         res = resp["result"]
@@ -60,31 +102,33 @@ class Zygote:
 
     def close(self):
         try:
-            self.proc.stdin.write(json.dumps({"kind": "quit"}) + "\n")
-            self.proc.stdin.flush()
-            self.proc.stdin.close()
-        except Exception:
+            with self.wlock:
+                self.proc.stdin.write(b'{"kind": "quit"}\n')
+                self.proc.stdin.flush()
+                self.proc.stdin.close()
+        except Exception:  # noqa: BLE001
             pass
         try:
             self.proc.wait(timeout=5)
-        except Exception:
+        except Exception:  # noqa: BLE001
             self.proc.kill()
 
 
 class ZygotePool:
-    """A fixed set of hash seeds, `replicas` zygotes per seed; borrow by hash seed."""
+    """One zygote per hash seed (`replicas` of each); jobs are routed by hash seed."""
 
-    def __init__(self, hashseeds: list[int], replicas: int, repo_root: str):
+    def __init__(self, hashseeds: list[int], replicas: int, repo_root: str, max_inflight: int = 8):
         self.hashseeds = list(hashseeds)
         self.repo_root = repo_root
-        self.queues: dict[int, queue.Queue] = {h: queue.Queue() for h in hashseeds}
+        self.by_seed: dict[int, list[Zygote]] = {h: [] for h in hashseeds}
+        self.rr: dict[int, itertools.count] = {h: itertools.count() for h in hashseeds}
         self.all: list[Zygote] = []
         started: list = []
         errs: list = []
 
         def start(h):
             try:
-                started.append(Zygote(h, repo_root))
+                started.append(Zygote(h, repo_root, max_inflight))
             except Exception as e:  # noqa: BLE001
                 errs.append(e)
 
@@ -99,24 +143,17 @@ class ZygotePool:
             raise HarnessError(f"zygote start failed: {errs[0]}")
         for z in started:
             self.all.append(z)
-            self.queues[z.hashseed].put(z)
+            self.by_seed[z.hashseed].append(z)
 
     def call(self, hashseed: int, job: dict) -> dict:
-        q = self.queues[hashseed]
-        z = q.get()
-        try:
-            return z.call(job)
-        except HarnessError:
-            # replace a possibly wedged zygote
-            try:
-                z.close()
-            except Exception:
-                pass
-            z = Zygote(hashseed, self.repo_root)
-            self.all.append(z)
-            raise
-        finally:
-            q.put(z)
+        zs = self.by_seed[hashseed]
+        z = zs[next(self.rr[hashseed]) % len(zs)]
+        if z.dead:
+            z2 = Zygote(hashseed, self.repo_root)
+            self.all.append(z2)
+            zs[zs.index(z)] = z2
+            z = z2
+        return z.call(job)
 
     def close(self):
         for z in self.all:
